@@ -155,6 +155,20 @@ fn cases(tier: &str) -> Vec<Case> {
     for (what, text) in short_table_texts() {
         out.push(Case::Mutation(Some(format!("short table: {what}")), text));
     }
+    // every pair of conventions on the same slot of base and derived table (absent = thiscall for a receiver)
+    let ccs: [Option<&str>; 8] = [None, Some("C"), Some("cdecl"), Some("stdcall"), Some("fastcall"), Some("thiscall"), Some("vectorcall"), Some("system")];
+    for x in ccs {
+        for y in ccs {
+            let attr = |c: Option<&str>| c.map(|c| format!("        #[calling_convention(\"{c}\")]\n")).unwrap_or_default();
+            let t = format!(
+                "pub type B {{\n    vftable {{\n{}        pub fn a(&self, v: u32) -> u32;\n    }},\n    pub x: *const u8,\n}}\npub type D {{\n    vftable {{\n{}        pub fn a(&self, v: u32) -> u32;\n        pub fn extra(&self);\n    }},\n    #[base]\n    pub base: B,\n    pub y: *const u8,\n}}\n",
+                attr(x),
+                attr(y)
+            );
+            let same = x.unwrap_or("thiscall") == y.unwrap_or("thiscall");
+            out.push(Case::Mutation(if same { None } else { Some(format!("convention pair: base {x:?}, derived {y:?}")) }, t));
+        }
+    }
     // a base table with a placeholder slot in the middle (`a`, `_vfunc_1`, `c`): the derived block has to
     // keep every function in its slot
     let gap_base = "    vftable {\n        pub fn a(&self);\n        #[index(2)]\n        pub fn c(&self);\n    },\n";
@@ -233,7 +247,7 @@ fn driver(m: &Model) -> String {
 pub fn run(tier: &str, only: Option<&Value>) -> i32 {
     let mut rep = Report::new("C06", tier);
     let all = cases(tier);
-    rep.rule = "E1: (a) every inheritance shape over up to 4 types — each type with an ordered list of 0..3 distinct earlier types as #[base] fields and with or without a vftable block of its own (a block repeats the first base's table and adds one function) — 2 922 shapes; (b) a three-function base table (arguments, return types, an explicit convention) and a derived block that is the compatible prefix, the prefix plus one function, or one of every single-slot mutation (name, receiver mutability, one parameter type, return type, calling convention, slot dropped, two slots swapped; a base table with a placeholder gap whose derived block closes, moves, widens or fills the gap), directly, through an intermediate type without a block, and with a second base. Oracle: accepted => compatible (every mutation must be rejected; compatible-but-rejected is counted, not flagged); for accepted shapes rustc asserts base-field offsets, sizes, vftable pointer at offset 0 followed by the first declared field (both widths), syn checks that types whose first base supplies the table have no vftable field and that vftable() is typed with the derived table, and vftable() is executed on the host: it returns the pointer planted at the start of the object. distinct = distinct shapes / mutations".into();
+    rep.rule = "E1: (a) every inheritance shape over up to 4 types — each type with an ordered list of 0..3 distinct earlier types as #[base] fields and with or without a vftable block of its own (a block repeats the first base's table and adds one function) — 2 922 shapes; (b) a three-function base table (arguments, return types, an explicit convention) and a derived block that is the compatible prefix, the prefix plus one function, or one of every single-slot mutation (name, receiver mutability, one parameter type, return type, calling convention, slot dropped, two slots swapped; a base table with a placeholder gap whose derived block closes, moves, widens or fills the gap; every ordered pair of the eight convention spellings on one slot), directly, through an intermediate type without a block, and with a second base. Oracle: accepted => compatible (every mutation must be rejected; compatible-but-rejected is counted, not flagged); for accepted shapes rustc asserts base-field offsets, sizes, vftable pointer at offset 0 followed by the first declared field (both widths), syn checks that types whose first base supplies the table have no vftable field and that vftable() is typed with the derived table, and vftable() is executed on the host: it returns the pointer planted at the start of the object. distinct = distinct shapes / mutations".into();
     rep.assumptions = vec!["the reference model places a type's own vftable pointer first, then its bases in order, then its own field".into()];
     let only_i = only.map(|l| (l["index"].as_u64().unwrap_or(0) as usize, l["ps"].as_u64().unwrap_or(8) as usize));
     let idxs: Vec<usize> = match only_i {
